@@ -84,7 +84,7 @@ CLAIMED.update({
          "DESIGN.md §4 C08"),
  "C09": ("Go race detector over rounds of N goroutines on cold shared assets in many short-lived processes + concurrent-vs-solo transcript equality + canaries + cold-load conservation (UUID draws of concurrent vs solo first use)",
          "Runtime monitoring / sanitizer: the checker is rebuilt with -race; each round builds fresh shared SessionAssets (flows stored at spec 13.0 so lazy migration runs on first use) and releases N in {2..32} goroutines from a barrier under GOMAXPROCS in {1,2,4,8,16}, each running a seeded script (start, marshal, read, resume, inspect, extract, change language, evaluate, query, modifiers) with per-goroutine lock-free clock/UUID sources that inject yields; oracles: zero race reports, every goroutine's transcript byte-equal to its solo run, process globals, shared singleton values and shared assets unchanged, and (cold-load clause) N goroutines asking fresh assets for the same legacy definitions at once draw from one shared counting UUID source exactly what one goroutine draws. Held on the interleavings observed only.",
-         "Trusts: the race detector (happens-before; reports only races that occur in the observed executions); harness takes no lock between barrier and end of a script; rand()/random routers excluded (global lock in the random package).",
+         "Trusts: the race detector (happens-before; reports only races that occur in the observed executions); harness takes no lock between the start barrier and the end of a script (in every second round all goroutines line up once more after their first operation, so that lazily built state is first used by all of them at the same moment); rand()/random routers excluded (global lock in the random package).",
          "DESIGN.md §4 C09"),
  "C18": ("reference-model oracle: reference language chain vs msg_created / category_localized / router behaviour over the configuration grid",
          "Runtime monitoring: the grid contact language x allowed-language lists x base language x translation state per (language, item, property) is executed (thorough: the complete grid of 177120 points, exhaustive for that sub-space) and text, attachments, quick replies, the language part of the locale, category_localized and routing with localized arguments must equal what the documented fallback chain prescribes. Held on the executions observed only.",
